@@ -18,15 +18,18 @@ var rule = "mode I (bounded-exhaustive enumeration, no scheduler, no sampling): 
 	"into <=3 fragments for the small-message families (short reads: a Read never spans two fragments) and in the structural splits (inside/after the length prefix, " +
 	"at and around the first frame end, before the last byte) for the large-message families. " +
 	"Library panics are recovered per case; the enumeration runs in worker processes so that an unrecoverable panic in a library goroutine is reported, " +
-	"not suffered; per-case watchdog. CONCURRENT WRITERS ARE NOT PART OF THIS CHECK (they are explored under the scheduler, mode S); " +
-	"the three real WebSocket back-ends (build tags) and real QUIC/WebTransport sessions are not exercised here. " +
+	"not suffered; per-case watchdog. The in-memory websocket.Conn also records whether Transport.Read abandons a message reader before io.EOF (documented contract of the coder/nhooyr back-ends). " +
+	"CONCURRENT WRITERS ARE NOT PART OF THIS CHECK (they are explored under the scheduler, mode S). " +
+	"Non-deciding conformance extra (families loop-*): sequences of length <=2 are replayed sequentially over real loopback connections - the WebSocket back-end selected by build tag " +
+	"(coder by default; -tags gorilla / nhooyr), a real QUIC connection and a real WebTransport session (webtransport.New itself) - checking only the peer-visible clauses; " +
+	"network- or timing-dependent outcomes are counted as inconclusive, never as violations. " +
 	"distinct_nontrivial = number of cases; all cases are distinct by construction (enumeration without repetition)."
 
 var assumptions = []string{
-	"the in-memory websocket.Conn honours the contract of the real back-ends used by Transport: Writer().Close() delivers exactly one message of the given type, Reader() returns the next whole message; frames are never lost, duplicated or reordered",
+	"the in-memory websocket.Conn honours the contract of the real back-ends used by Transport: Writer().Close() delivers exactly one message of the given type, Reader() returns the next whole message (it keeps doing so when the previous reader was not drained, and reports that breach separately instead of failing like coder/nhooyr, so that later messages are still checked); frames are never lost, duplicated or reordered",
 	"the fake quic.Connection delivers stream bytes and datagrams loss-free and in order; datagram loss/reordering is the subject of C14",
 	"the reference DEFLATE decoder and the reference framing were written from RFC 1951 and from the documented framing (compress.Config: WindowSize = 2^WindowBits; transport.go comments) independently of compress/flate",
-	"the WebTransport constructor used here (inject/transport/webtransport/zz_verif_c13.go) copies the field initialisation and encode/decode selection of webtransport.New verbatim; New itself needs a real session and is not executed",
+	"the WebTransport constructor used here (inject/transport/webtransport/zz_verif_c13.go) copies the field initialisation and encode/decode selection of webtransport.New verbatim; webtransport.New itself needs a real session and runs only in the loop-wt conformance family",
 	"message contents are three fixed deterministic patterns (zeros, period-7 text, a fixed xorshift32 byte stream); a message is a prefix of its pattern, so equal-content messages share prefixes and the dictionaries matter",
 	"QUIC and WebTransport compress per message whatever takeover mode was negotiated (transport/quic/transport.go:83-90); the reference accepts exactly that",
 }
@@ -34,8 +37,9 @@ var assumptions = []string{
 var notCovered = []string{
 	"concurrent writers (mode S harness)",
 	"window-relative sizes for window bits 32 (W-1..2W+3 around 4 GiB are not representable); bits 32 is run with sizes {0,1,65535,65536,1 MiB}",
-	"webtransport.New / the WebTransport reader goroutines and WriteUnreliable (need a concrete *webtransport.Session); the WebTransport datagram receive path is fed with datagrams produced by the QUIC transport",
-	"real coder/gorilla/nhooyr connections and real QUIC/WebTransport loopback sessions",
+	"webtransport.New / the WebTransport reader goroutines in the deciding families (need a concrete *webtransport.Session; they run only in loop-wt) and WebTransport WriteUnreliable at all; the WebTransport datagram receive path is fed with datagrams produced by the QUIC transport",
+	"raw-frame (wire) checks on real connections: the loopback families only see what the peer reads; only one WebSocket back-end per binary (the back-end packages panic when two are linked): run with -tags gorilla / -tags nhooyr for the others",
+	"WebSocket loopback beyond the first message per direction in compressed modes on coder/nhooyr (blocked by the conn-reader-not-drained finding: the second Read fails)",
 	"every split of streams longer than the small-message families (structural splits only)",
 	"quick tier: length-3 WebSocket sequences for the stateless modes (off, per-message) only with one content per sequence; thorough tier: length-4 sequences only for context takeover and only with one content per sequence",
 }
@@ -57,6 +61,7 @@ func spaceDescription(thorough bool) map[string]any {
 		"ws_sequence_lengths":     "quick: <=2 full alphabet all modes, 3 full alphabet for context takeover, 3 same-content for off/per-message; thorough: <=3 full alphabet all modes, 4 same-content for context takeover",
 		"stream_sequence_lengths": "quick: <=2 full alphabet (structural splits), <=3 over sizes {0,1,2,5} x {zeros,text} (every split); thorough: + length 3 same-content (structural splits), small alphabet with 3 contents",
 		"datagram_sizes":          dgramSizes,
+		"loopback":                "loop-ws (back-end " + loopBackend + "): quick-tier WebSocket grid x sequences <=2 (quick: one content per sequence; thorough: full alphabet); loop-quic / loop-wt: quick-tier stream grid x same-content sequences <=2; duplex",
 		"negotiation_variants":    []string{"level0 (clevel=0 means off)", "basebits (window bits from Config.CompressConfig)", "validated (clevel filled in by Validate)"},
 	}
 	if thorough {
